@@ -371,7 +371,7 @@ func (e *Exec) loopEnv(st *State, fr *Frame, lp *Loop) func(name string, t types
 				return fr.env[phi], true
 			}
 		}
-		if v, ok := e.lookupName(st, fr, name, lp.header); ok {
+		if v, ok := e.lookupName(st, fr, name, lp.header, t); ok {
 			return v, true
 		}
 		return e.topEnvLookup(st, fr, name, t)
@@ -379,7 +379,7 @@ func (e *Exec) loopEnv(st *State, fr *Frame, lp *Loop) func(name string, t types
 }
 
 // lookupName finds the value of a source-level local variable by scanning DebugRefs of blocks that dominate b.
-func (e *Exec) lookupName(st *State, fr *Frame, name string, at *ssa.BasicBlock) (Value, bool) {
+func (e *Exec) lookupName(st *State, fr *Frame, name string, at *ssa.BasicBlock, want types.Type) (Value, bool) {
 	var best ssa.Value
 	var bestAddr bool
 	for _, b := range fr.fn.Blocks {
@@ -414,6 +414,11 @@ func (e *Exec) lookupName(st *State, fr *Frame, name string, at *ssa.BasicBlock)
 	v := e.val(fr, best)
 	if bestAddr {
 		p := v.(*PtrV)
+		if pt, ok := want.Underlying().(*types.Pointer); ok && want != nil {
+			if l := e.locOf(p); types.Identical(pt.Elem(), l.T) {
+				return p, true // the clause asks for the variable's address
+			}
+		}
 		return st.LoadLoc(e.locOf(p)), true
 	}
 	return v, true
